@@ -256,7 +256,11 @@ PROPS = {
                                  'THREADS: no interleaving is explored. The family is silent on concurrency; the thread clause '
                                  'is covered only by the sufficient condition above plus the assumption that threads share no '
                                  'argument objects (CPython threads interact only through shared mutable objects)']),
-    'C15': PropSpec('C15', contracts=[ENC + 'timestamp', DEC + 'timestamp'], floor=30,
+    'C15': PropSpec('C15', contracts=[ENC + 'timestamp', DEC + 'timestamp',
+                                      # every route by which a timestamp reaches / leaves those two: their contracts state the
+                                      # zone-independent octets / instant, so a conversion added on the way fails them
+                                      ENC + 'encode_table_value', DEC + 'embedded_value', (BPN + 'marshal', {'encoded'}),
+                                      (BPN + 'unmarshal', {'grammar-valid-properties'})], floor=30,
                     assumptions=['A5: classification of library functions: calendar.timegm, aware datetime.timestamp(), '
                                  'replace(tzinfo=utc), fromtimestamp(tz=utc) are host-zone independent; time.mktime, naive '
                                  'timestamp(), fromtimestamp() without tz, astimezone() depend on LOCAL_OFFSET, which is an '
